@@ -157,6 +157,18 @@ func StepWorkflowPaths(wf *workflow.Workflow) map[string]string {
 // SubworkflowCache creates a file cache of the sub-workflows referenced
 // in this workflow using rootDir as a context.
 func SubworkflowCache(wf *workflow.Workflow, rootDir string, converter workflow.YAMLConverter, flowCaches []loadfile.FileCache) (loadfile.FileCache, error) {
+	return buildSubworkflowCache(wf, rootDir, converter, flowCaches, map[string]struct{}{})
+}
+
+// buildSubworkflowCache does the work of SubworkflowCache. The parents parameter holds the absolute paths of the
+// sub-workflow files that are currently being processed, in order to detect workflows that reference themselves.
+func buildSubworkflowCache(
+	wf *workflow.Workflow,
+	rootDir string,
+	converter workflow.YAMLConverter,
+	flowCaches []loadfile.FileCache,
+	parents map[string]struct{},
+) (loadfile.FileCache, error) {
 	stepWorkflowPaths := StepWorkflowPaths(wf)
 	if len(stepWorkflowPaths) == 0 {
 		return nil, nil
@@ -170,11 +182,16 @@ func SubworkflowCache(wf *workflow.Workflow, rootDir string, converter workflow.
 		return nil, err
 	}
 	for _, ctxFile := range subworkflowCache.Files() {
+		if _, isParent := parents[ctxFile.AbsolutePath]; isParent {
+			return nil, fmt.Errorf("sub-workflow %s references itself, directly or through other sub-workflows", ctxFile.ID)
+		}
 		subwf, err := converter.FromYAML(ctxFile.Content)
 		if err != nil {
 			return nil, err
 		}
-		flowCache, err := SubworkflowCache(subwf, rootDir, converter, flowCaches)
+		parents[ctxFile.AbsolutePath] = struct{}{}
+		flowCache, err := buildSubworkflowCache(subwf, rootDir, converter, flowCaches, parents)
+		delete(parents, ctxFile.AbsolutePath)
 		if err != nil {
 			return nil, err
 		}
